@@ -408,6 +408,17 @@ fn witness_set_case(ctx: &mut Ctx, tape: &[u8]) -> CaseResult {
                     model.push(b);
                 }
             }
+            // the list itself may arrive decoded from its bytes, with its repeats in it
+            let l = match hist_len % 2 {
+                1 => match catch(|| PlutusList::from_bytes(l.to_bytes())) {
+                    Ok(Ok(d)) => {
+                        ctx.label("witness-set-datum-list-arrives:from_bytes");
+                        d
+                    }
+                    _ => l,
+                },
+                _ => l,
+            };
             ws.set_plutus_data(&l);
             (4, model)
         }
